@@ -1010,6 +1010,8 @@ class Machine:
     def new_list(self, items: list[V], hint: str | None, kind: str) -> V:
         if hint and "[" in hint:
             es = get_sort(hint[hint.index("[") + 1:-1])
+        elif items and not isinstance(items[0], VTerm):
+            return VTuple(items)  # a display of class objects / constants, only ever read: treated as a tuple
         elif items and isinstance(items[0], VTerm):
             es = items[0].sort
         else:
@@ -1367,12 +1369,12 @@ class Machine:
                 return z3.BoolVal(False)
             return z3.Or(*[self.equal(item, x) for x in container.items])
         if isinstance(container, VSeq):
-            it = container.sort.elem.coerce(item)
             if not self.spec:
                 for h in getattr(self.world, "py_in_hooks", []):
-                    r = h(self, container, it)
+                    r = h(self, container, item)
                     if r is not None:
                         return r
+            it = container.sort.elem.coerce(item)
             return z3.Contains(container.term, z3.Unit(it.term))
         r = self.call_dunder(container, "__contains__", [item])
         if r is not None:
